@@ -56,7 +56,8 @@ Definition average_default (a : arr3 sample) (T F B : nat) : option (arr3 sample
   average_api a T F B averager_default_timeav averager_default_chanav averager_default_flagav.
 
 (* ------------------------------------------------------------------ wire *)
-(* (T F B (timeav chanav flagav)|() samples) -> (1 (n_time n_chans n_bl of the result) model) | (0);  () = the defaults *)
+(* (T F B (timeav chanav flagav)|() samples) -> (1 (n_time n_chans n_bl of the result) model (timeav chanav)) |
+   (0 (timeav chanav));  () = the defaults; (timeav chanav) = the factors the call asked for *)
 Definition wire_1510 (x : sx) : sx :=
   match x with
   | L [T; F; B; opts; a] =>
@@ -73,6 +74,9 @@ Definition wire_1510 (x : sx) : sx :=
                end in
       let ta := if averager_clamp_timeav then Nat.min timeav T else timeav in
       let ca := if averager_clamp_chanav then Nat.min chanav F else chanav in
-      match r with None => L [I 0] | Some r => L [I 1; of_nats [T / ta; F / ca; B]; of_arr3 of_sample r] end
+      match r with
+      | None => L [I 0; of_nats [timeav; chanav]]
+      | Some r => L [I 1; of_nats [T / ta; F / ca; B]; of_arr3 of_sample r; of_nats [timeav; chanav]]
+      end
   | _ => sx_err
   end.
